@@ -298,4 +298,32 @@ theorem forgetTarget_spec (g : Graph) (a : ForgetArgs) (dflt : Option (List Name
 
 theorem eraseAll_rcd (s : St) (k : Name) : (eraseAll s).rcd k = Rcd.empty := rfl
 
+/-! ## `forget` does not look at `calc_dep` -/
+
+theorem tdIter_calcDep (g : Graph) (c : Name → List Name) (fuel : Nat) (P q : List Name) :
+    tdIter { g with calcDep := c } fuel P q = tdIter g fuel P q := by
+  induction fuel generalizing P q with
+  | zero => cases q <;> rfl
+  | succ n ih =>
+    cases q with
+    | nil => rfl
+    | cons t q =>
+      simp only [tdIter]
+      have hs : Graph.succs { g with calcDep := c } t = g.succs t := rfl
+      rw [hs, ih]
+
+/-- what `forget` resolves its arguments to is the same whatever the `calc_dep` edges of the task set are -/
+theorem forgetTarget_calcDep (fixed : Bool) (g : Graph) (c : Name → List Name) (a : ForgetArgs) (dflt : Option (List Name)) :
+    forgetTarget fixed { g with calcDep := c } a dflt = forgetTarget fixed g a dflt := by
+  unfold forgetTarget
+  have h1 : ∀ l, firstUnknown { g with calcDep := c } l = firstUnknown g l := fun _ => rfl
+  have h2 : ∀ o, forgetBase fixed { g with calcDep := c } o = forgetBase fixed g o := fun _ => rfl
+  have h3 : ∀ fs base, forgetExpand { g with calcDep := c } fs base = forgetExpand g fs base := by
+    intro fs base
+    unfold forgetExpand
+    have hf : tdFuel { g with calcDep := c } base = tdFuel g base := rfl
+    have hw : withSubs { g with calcDep := c } base = withSubs g base := rfl
+    rw [hf, tdIter_calcDep, hw]
+  simp only [h1, h2, h3]
+
 end DoitModel.Cmds
